@@ -530,6 +530,10 @@ func (r *Run) enterBlock(fr *Frame, st *State, b, prev *ssa.BasicBlock) bool {
 		for _, inv := range ls.Invariants {
 			st.assume(r.evalBool(&Env{r: r, st: st, old: r.entry, pre: pre, fr: fr, vars: r.varsFor(fr)}, inv.Expr))
 		}
+		for _, as := range ls.Assumes {
+			st.assume(r.evalBool(&Env{r: r, st: st, old: r.entry, pre: pre, fr: fr, vars: r.varsFor(fr)}, as.Expr))
+			r.note("assumption", "%s loop %d assumes %s: %s", fnName(fr.fn), ord, as.Label, as.Expr)
+		}
 		if ls.Decreases != nil {
 			m := r.evalTerm(&Env{r: r, st: st, old: r.entry, fr: fr, vars: r.varsFor(fr)}, ls.Decreases)
 			c := r.fresh("measure", "Int")
@@ -602,6 +606,12 @@ func (r *Run) havocLoop(fr *Frame, st *State, h *ssa.BasicBlock) {
 	mods := &modSet{cells: map[*ssa.Alloc]bool{}, heap: map[string]bool{}, ghost: map[string]bool{}}
 	for b := range body {
 		r.collectMods(fr.fn, b, mods, 0)
+	}
+	if ct := r.contractFor(fr.fn); ct != nil {
+		// ghost code attached to events (calls, receives) of this function may run in the loop
+		for _, g := range ct.Ghosts {
+			mods.ghost[g.Ghost] = true
+		}
 	}
 	for a := range mods.cells {
 		if c, ok := fr.allocs[a]; ok {
